@@ -141,7 +141,8 @@ def k_parsers(p0: int, v0: str, p1: int, c1: int, p2: int, c2: int, pos: int) ->
 # --------------------------------------------------------------------------- W
 TDK = ['home-on-root', 'home-own-volume', 'top', 'alt', 'trash-dir-opt', 'trash-dir-opt-through-a-link-on-another-volume']
 SHAPES = ['abs', 'rel', 'rel-escaped', 'abs-escaped', 'dup-path', 'dup-date', 'extra-keys', 'no-header', 'crlf', 'trailing-space',
-          'rel-dotdot', 'plus-sign', 'date-first']
+          'rel-dotdot', 'plus-sign', 'date-first', 'dup-date-first-malformed', 'dup-date-first-with-offset']
+NSH = len(SHAPES)
 NOW = '2020-06-15T12:00:00'
 
 
@@ -185,6 +186,13 @@ def shape(sk, base_abs, base_rel):
     if k == 'plus-sign':
         p = base_rel + '/a+b'
         return K.info_text(p, d), p, d
+    if k == 'dup-date-first-malformed':
+        # the FIRST DeletionDate line decides for every command: it is malformed here, the later valid one is ignored
+        p = base_rel + '/n'
+        return '[Trash Info]\nPath=%s\nDeletionDate=2001-01-01T00:00:00 \nDeletionDate=2001-01-01T00:00:00\n' % p, p, None
+    if k == 'dup-date-first-with-offset':
+        p = base_rel + '/n'
+        return '[Trash Info]\nPath=%s\nDeletionDate=2002-02-02T00:00:00+02:00\nDeletionDate=2002-02-02T00:00:00\n' % p, p, None
     if k == 'date-first':
         p = base_rel + '/n'
         return '[Trash Info]\nDeletionDate=%s\nPath=%s\n' % (d, p), p, d
@@ -291,10 +299,10 @@ def _case(tdk, sk):
 
 def w_main(tdk: int, sk: int) -> str:
     """
-    pre: 0 <= tdk < 6 and 0 <= sk < 13
+    pre: 0 <= tdk < 6 and 0 <= sk < NSH
     post: _ == ''
     """
-    return _case(rt.sel(tdk, 6), rt.sel(sk, 13))
+    return _case(rt.sel(tdk, 6), rt.sel(sk, NSH))
 
 
 def obligations(tier):
@@ -306,5 +314,5 @@ def obligations(tier):
            partitions=[(a, b, 2 if tier == 'quick' else 4) for a in range(9) for b in range(3)]),
         CH('W_dirkind_x_shape', MOD, 'w_main', timeout=600, engine='W', regime='selector',
            encodes=K.LIST_FUNCS + K.RESTORE_FUNCS + K.RM_FUNCS + K.EMPTY_FUNCS, stubs=K.STUBS,
-           bounds='5 kinds of trash directory x 13 content shapes; per case 8 command runs'),
+           bounds='6 kinds of trash directory (incl. --trash-dir through a symlink on another volume) x 15 content shapes; per case 8 command runs'),
     ]
